@@ -5,6 +5,7 @@ let suites : (string * (string -> string)) list = [
   ("parse", Suite_parse.run);
   ("icept", Suite_parse.run);
   ("reg", Suite_parse.run);
+  ("print", Suite_print.run);
 ]
 
 let () =
